@@ -47,7 +47,10 @@ def main():
     flat = re.sub(r"\s+", " ", body)
     need(flat, r"queue\.push_back\(\(0, ids, rsrc_section\)\)", "parse_resources: the root is queued at level 0")
     need(flat, r"while let Some\(\(level, ids, rsrc_dir\)\) = queue\.pop_front\(\)", "parse_resources: BFS over a queue")
-    need(flat, r"if dir_entry\.is_subdir \{ queue\.push_back\(\(level \+ 1, ids, entry_data\)\); \}", "parse_resources: sub-directories queued with level + 1")
+    qm = re.search(r"if dir_entry\.is_subdir(?: && level < (\d+))? \{ queue\.push_back\(\(level \+ 1, ids, entry_data\)\); \}", flat)
+    if not qm:
+        raise TranslateError("cap no longer applied as modelled: parse_resources: sub-directories queued with level + 1 (optionally only while level < K)")
+    queue_guard = int(qm.group(1)) if qm.group(1) else None
     m = re.search(r"let ids = match level \{", body)
     if not m:
         raise TranslateError("parse_resources: `let ids = match level {` not found")
@@ -87,6 +90,9 @@ Local Open Scope N_scope.
 (* pe parse_resources: entries of directories at levels 0..rsrc_max_level are
    processed; deeper directories are still dequeued and parsed, their entries skipped *)
 Definition rsrc_max_level : nat := {levels[-1]}.
+(* sub-directories are queued with level + 1 only while level < K (K = max_level + 1
+   when there is no such guard): the deepest level that is ever dequeued *)
+Definition rsrc_deepest_level : nat := {queue_guard if queue_guard is not None else levels[-1] + 1}.
 (* does the traversal remember which directories it has already visited? *)
 Definition rsrc_walk_remembers_visited : bool := {'true' if visited else 'false'}.
 (* parse_rsrc_dir: number_of_named_entries, number_of_id_entries <= 32768 each *)
